@@ -30,11 +30,11 @@ class C15(Prop):
         return [{"module": "MC_Remote", "cfg": ctx.pick("MC_Remote.cfg", "MC_RemoteFull.cfg"), "timeout": 1500}]
 
     def scenarios(self, ctx: Ctx):
-        n = ctx.pick(40, 600)
+        n = ctx.pick(40, 300)
         out = []
         for k in range(n):
             out.append({"seed": ctx.rng.randrange(1 << 30), "long": k % 4 == 0, "via": "manager" if k % 2 else "direct",
-                        "full": (not ctx.quick) and k % 10 == 0, "nreq": ctx.pick(400, 1500),
+                        "full": (not ctx.quick) and k % 15 == 0, "nreq": ctx.pick(400, 800),
                         "toggle": [True, False, None][k % 3], "special": [None, True, False, None][k % 4]})
         return out
 
